@@ -186,6 +186,9 @@ TABLE = [
     ("e.jag().First()", Iterable[float]), ("e.jag().First().First()", float), ("e.jag().SelectMany(lambda r: r)", Iterable[float]), ("e.jag()[0][0]", float),
     ("e.jag().Select(lambda r: r.Count())", Iterable[int]), ("e.jag().depth()", int),
     ("e.tj().First()", Jet), ("e.tj().First().pt()", float), ("e.tj().Select(lambda j: j.eta())", Iterable[float]), ("e.tj().tag()", Trk),
+    # the lambda is handed over by keyword
+    ("e.Jets().Where(filter=lambda j: j.pt() > 1)", Iterable[Jet]), ("e.Jets().Where(filter=lambda j: j.tagged()).First()", Jet),
+    ("e.Jets().Where(filter=lambda j: j.pt() > 1).Select(f=lambda j: j.idx())", Iterable[int]), ("e.Jets().SelectMany(func=lambda j: j.Tracks()).Count()", int),
     # type variables declared by the subclass in another order / with an unrelated extra one; a user class named like a typing alias
     ("e.sw().first()", Jet), ("e.sw().second()", int), ("e.sw().first().pt()", float),
     ("e.kc().First()", Trk), ("e.kc().Select(lambda t: t.q())", Iterable[int]), ("e.kc()[0].pt()", float), ("e.kc().key()", int),
@@ -271,7 +274,7 @@ STREAM = [
     ("SelectMany", "lambda e: e.Jets().Select(lambda j: j.pt())", float, None), ("SelectMany", "lambda e: e.kc()", Trk, None), ("Select", "lambda e: e.sw().first()", Jet, None),
     ("Where", "lambda e: e.met() > 1", Evt, None), ("Where", "lambda e: e.ok()", Evt, None), ("Where", "lambda e: e.ok() and not e.lead().tagged()", Evt, None),
     ("Where", "lambda e: e.met()", "ValueError", None), ("Where", "lambda e: e.n()", "ValueError", None), ("Where", "lambda e: e.lead()", "ValueError", None),
-    ("Where", "lambda e: e.unk()", "ValueError", None),
+    ("Where", "lambda e: e.unk()", "ValueError", None), ("Select", "lambda e: e.Jets().Where(filter=lambda j: j.pt())", "ValueError", None),
     # second level: derived stream first
     ("Select", "lambda j: j.pt()", float, ("SelectMany", "lambda e: e.Jets()")),
     ("Select", "lambda js: js.First()", Jet, ("Select", "lambda e: e.Jets()")),
